@@ -2,7 +2,8 @@
 
 Monitor: recorded API sessions (hv/checks/c13_session.py).  Each session runs in a brand-new
 interpreter with its own PYTHONHASHSEED, interleaves calls of every public entry point, adversarial
-caller-side mutation of everything returned earlier and re-requests, and logs for every call the
+caller-side mutation of everything returned earlier, legal in-place edits of the caller's own argument
+objects followed by a call with the very same objects, and re-requests, and logs for every call the
 argument digests before/after and the result digest.  Offline oracle over the log: every result must
 equal the answer of a *pristine* process for the same arguments (a zygote forked before the first
 library call answers each request in a freshly forked grandchild: caches cold, no history), and for a
@@ -19,7 +20,7 @@ from ..core import Partial
 
 PID = "C13"
 ASSUMPTIONS = ["sessions are sampled (the space of interleavings is unbounded); requests come from a small pool so re-requests after mutation are frequent",
-               "attribute assignment on StabilizerCircuitInfo objects and mutation of Stabilizer objects that alias the caller's own arrays are not part of the mutation workload",
+               "attribute assignment on StabilizerCircuitInfo objects is not part of the mutation workload; Stabilizer objects are never mutated as *returned* objects, but the caller's own graph / matrices / circuit / lists behind them are edited in place between calls (at most 5 edits per argument set)",
                "a process forked before the first library call is equivalent to a fresh interpreter (additionally cross-checked against a separately started interpreter with another hash seed)"]
 
 
@@ -28,6 +29,9 @@ def RULE(tier):
             "from pools in the formats strings / matrices / graph / circuit, 30%% caller-side mutations of earlier results: list "
             "clear/append/reverse/item and nested-item assignment/pop, circuit gates appended / data cleared / metadata and readout "
             "info edited, dict overwrite/clear, graph edits, ndarray fill, MUBInfo members), caller circuits with their own metadata, "
+            "15%% in-place edits of the caller's own argument objects followed by a call with the very same objects (graph edge "
+            "add/remove/toggle and local complementation, X/Z/sign matrix edits H/S/CZ/generator product/sign flip, gates appended "
+            "to the caller's circuit, string list and qubit list edits; reference = pristine process building and editing alike), "
             "a retention monitor on untouched earlier results after every call, three hash seeds; non-trivial = call "
             "issued after at least one mutation of an earlier result of the same entry point or a re-request; distinct = distinct "
             "(session, event)" % ((16, 600) if tier == "quick" else (96, 3000)))
@@ -66,8 +70,10 @@ def work(task):
     st = out["stats"]
     p.evals += st["calls"]
     p.distinct_count += st["rerequests"]
-    for k in ("calls", "cold", "warm", "mutations", "rerequests", "reused_args", "retained_checks"):
+    for k in ("calls", "cold", "warm", "mutations", "rerequests", "reused_args", "retained_checks", "arg_edits", "calls_after_arg_edit"):
         p.counters["session " + k] += st[k]
+    for e, c in st["edit_ops"].items():
+        p.counters["own-argument edit " + e] += c
     for e, c in st["entries"].items():
         p.counters["entry " + e] += c
     case = {"session_seed": sseed, "events": nevents, "hashseed": hashseed}
@@ -95,6 +101,8 @@ def finalize(total, tier, seed):
     c = total.counters
     if not c["session mutations"] or not c["session rerequests"] or not c["session cold"] or not c["session warm"]:
         raise Inconclusive("sessions did not exercise mutations / re-requests / cold and warm caches: %r" % dict(c))
+    if not c["session calls_after_arg_edit"]:
+        raise Inconclusive("no call was issued with argument objects the caller had edited in place")
     if not c["cross-process comparisons"]:
         raise Inconclusive("no cross-process comparison ran")
 
